@@ -112,7 +112,7 @@ def run_shape(ctx, label, shape, sample=None, rnd=None):
     try:
         path, sub = mc_module(wd, "CLex", dict(Shape=[set(s) for s in shape], Types=c09.TYPES))
         exports = []
-        res = tlc(path, sub + "INIT Init\nNEXT Next\n" + c09.INVS, wd=wd, on_export=exports.append, timeout=3000)
+        res = tlc(path, sub + "INIT Init\nNEXT Next\n" + c09.INVS, wd=wd, on_export=exports.append, timeout=3000, xss="256m")
         tlc_ok(res, "CLex " + label)
         if res.violated:
             raise common.MachineryError("CLex %s: spec invariant %s violated" % (label, res.violated))
